@@ -195,8 +195,7 @@ example : negGo 0 [(0, maxRune - 1)] = [] ∧ ¬ NegOk [(0, maxRune - 1)] := by 
 satisfies the precondition of `negatedRanges_mem`, consists of non-empty intervals, and the
 linear-scan threshold of `charInSlow` is the one the model uses. -/
 theorem posix_tables_ok :
-    (∀ t ∈ RegexVerif.Generated.posixTables, NegOk t.2) ∧ RegexVerif.Generated.linearScanMax = 4 ∧
-    RegexVerif.Generated.posixTables.length = 12 := by decide
+    (∀ t ∈ RegexVerif.Generated.posixTables, NegOk t.2) ∧ RegexVerif.Generated.linearScanMax = 4 := by decide
 
 /-- **`scanCharSet` builds the union of its items.**  For a class `[` (`^`)? item… (`-[sub]`)? `]`
 read without IgnoreCase — every item added with `addRange` / `addRanges` / `addNegativeRanges` /
@@ -234,6 +233,42 @@ example : (build sampleCat false [.ranges [(0, 47), (58, maxRune)], .range 53 53
     (build sampleCat false [.ranges [(0, 47), (58, maxRune)]] false) = { ranges := [(48, 57)], neg := true } ∧
     (build sampleCat false [.ranges [(0, 47), (58, maxRune)], .range 53 53] false).memAlg sampleCat 53 = true ∧
     (build sampleCat true [.cats [(2, false)], .cats [(2, true)]] false).memAlg sampleCat 7 = false := by decide
+
+/-- **End to end (no IgnoreCase): a written class, parsed, prepared and looked up, is set algebra over
+its parts.**  For every class expression with nested subtractions, every item list (ranges
+non-empty, `[:^name:]` tables as in the source), every category oracle and every valid rune: parse
+each level as `scanCharSet` does, build the ASCII bitmaps as `Compile` does, look the rune up with
+`CharIn` (bitmap below 128, linear or binary search above) — the answer is
+((some item of the level matches) xor `^`) and not (the same for the subtracted class). -/
+theorem parsed_class_exact (cat : Nat → Nat → Bool) (a : Ast) (hok : ∀ it ∈ a.items, it.Wf ∧ it.Ok)
+    (ch : Nat) (hch : ch ≤ maxRune) :
+    charIn cat (prepare cat (strip (Ast.parse cat a))) ch = Ast.mem cat a ch ∧
+    charInSlow cat (strip (Ast.parse cat a)) ch = Ast.mem cat a ch := by
+  have hr : Class.RangesOk (Ast.parse cat a) ∧ memAlg cat (Ast.parse cat a) ch = Ast.mem cat a ch := by
+    induction a with
+    | leaf neg items =>
+      have h1 : ∀ it ∈ items, it.Wf ∧ it.Ok := fun it hit => hok it hit
+      exact ⟨(build_canonical cat neg items false h1).2, build_mem cat neg items false (fun it hit => (h1 it hit).2) ch hch⟩
+    | minus neg items sub ih =>
+      have h1 : ∀ it ∈ items, it.Wf ∧ it.Ok := fun it hit => hok it (List.mem_append_left _ hit)
+      obtain ⟨ih1, ih2⟩ := ih (fun it hit => hok it (List.mem_append_right _ hit))
+      refine ⟨⟨(build_canonical cat neg items true h1).2, ih1⟩, ?_⟩
+      simp only [Ast.parse, memAlg, Ast.mem, ih2, build_mem cat neg items true (fun it hit => (h1 it hit).2) ch hch]
+  have hb := bitmapOk_strip cat (Ast.parse cat a)
+  have hslow : charInSlow cat (strip (Ast.parse cat a)) ch = Ast.mem cat a ch := by
+    rw [charInSlow_eq_memAlg cat _ ch (rangesOk_strip _ hr.1) hb, memAlg_strip, hr.2]
+  exact ⟨by rw [(bitmap_eq cat _ hb).2.2 ch, hslow], hslow⟩
+
+/-- `[a-f\p{7}-[d-[^\p{2}]]]` (toy categories: multiples): 'd' (100, even) is not in the inner
+`[^\p{2}]`, so it is subtracted; 'c' (99) is in; 'p' (112 = 7·16) is in through the category -/
+example :
+    let a : Ast := .minus false [.range 97 102, .cats [(7, false)]] (.minus false [.range 100 100] (.leaf true [.cats [(2, false)]]))
+    (∀ it ∈ a.items, it.Wf ∧ it.Ok) ∧ Ast.mem sampleCat a 99 = true ∧ Ast.mem sampleCat a 100 = false ∧
+      Ast.mem sampleCat a 98 = true ∧ Ast.mem sampleCat a 112 = true ∧ Ast.mem sampleCat a 103 = false := by
+  refine ⟨?_, by decide⟩
+  intro it hit
+  simp [Ast.items] at hit
+  rcases hit with rfl | rfl | rfl | rfl <;> simp [Item.Wf, Item.Ok]
 
 /-- **`addSet` is union** on the positive side (callers require both classes un-negated and
 subtraction-free, `IsMergeable`): with truthful `anything` flags, membership afterwards is
